@@ -201,7 +201,8 @@ package client
 //@   ensures [C25] keeps_entries: clEntries(c)
 //@   ensures [C25] keeps_typed: clTyped(c)
 //@   ensures [C17] invalid_qos_refused: qos > 3 ==> result != nil && c.tryN == w0
-//@   ensures [C17] one_attempt_at_least: qos <= 3 ==> c.tryN >= w0 + 1 && istype(c.try[w0], *pkts1.Publish)
+//@   ensures [C17,C23] oversize_refused: len(payload) > 7168 ==> result != nil && c.tryN == w0
+//@   ensures [C17] one_attempt_at_least: qos <= 3 && len(payload) <= 7168 ==> c.tryN >= w0 + 1 && istype(c.try[w0], *pkts1.Publish)
 // C17: with QoS 1/2 the call reports success only for an exchange that was completed, and completed without an error
 // (Success is called only by Puback / Pubcomp in the awaited state, Fail always with an error: their contracts).
 //@   ensures [C17] nil_only_without_error: (qos == 1 || qos == 2) && result == nil ==> tbOf(tx).err == nil
